@@ -172,6 +172,19 @@ func oracleCrash(c *Case, res *Result, liveness bool) []Violation {
 		fop = f.Match
 	}
 	tag := fmt.Sprintf("/%s@%s", fk, fop)
+	if c.Note != "" {
+		// commit step logged last before the crash point: 2 lockTrackedItems, 3 commitTrackedItemsValues,
+		// 4 commitNewRootNodes, 5 areFetchedItemsIntact, 6 commitUpdatedNodes, 7 commitRemovedNodes,
+		// 8 commitAddedNodes, 9 commitStoreInfo, 10 beforeFinalize, 11 finalizeCommit (registry flip),
+		// 12 deleteObsoleteEntries, 13 deleteTrackedItemsValues
+		tag = "/" + c.Note + tag
+	}
+	for _, st := range c.Stores {
+		if items, ok := m[st.Name]; st.Name != "ticks" && ok && len(items) == 0 {
+			tag = "/emptystore" + tag // the subject creates the first root node of an existing, empty store
+			break
+		}
+	}
 	s0 := m
 	s1 := m.clone()
 	s1.ApplyTxn(c, sub)
@@ -308,9 +321,11 @@ func runCrashEnum(liveness bool) func(u *Unit) {
 		type pos struct {
 			op           int
 			kind, target string
+			stage        int // last commit step the subject had logged before this mutation (transaction-log code)
 		}
 		var positions []pos
 		commitSeen := false
+		stage := 0
 		for _, e := range pres.Sim.Log {
 			if e.Task != "subject" {
 				continue
@@ -319,7 +334,12 @@ func runCrashEnum(liveness bool) func(u *Unit) {
 				commitSeen = true
 			}
 			if commitSeen && sim.IsMutation(e.Kind) {
-				positions = append(positions, pos{e.Op, e.Kind, e.Target})
+				positions = append(positions, pos{e.Op, e.Kind, e.Target, stage})
+			}
+			if e.Kind == "tlog.Add" {
+				if i := strings.LastIndexByte(e.Target, '#'); i >= 0 {
+					fmt.Sscanf(e.Target[i+1:], "%d", &stage)
+				}
 			}
 		}
 		quick := u.Tier != "thorough"
@@ -336,6 +356,7 @@ func runCrashEnum(liveness bool) func(u *Unit) {
 				cs := *prog
 				f.Task, f.Op, f.Match = "subject", p.op, p.kind
 				cs.Faults = []sim.FaultSpec{f}
+				cs.Note = fmt.Sprintf("stage%02d", p.stage)
 				t0 := time.Now()
 				res := Execute(&cs)
 				if d := time.Since(t0); d > 5*time.Second {
